@@ -66,12 +66,11 @@ NI static void init_ctx(struct lctx *L, asn_TYPE_descriptor_t *td, enum asn_tran
 }
 
 NI static int is_zero_block(void *p) {
-    for(int i = 0; i < ledger_nblocks; i++) if(ledger_blocks[i].p == p) {
-        const unsigned char *b = p;
-        for(size_t k = 0; k < ledger_blocks[i].n; k++) if(b[k]) return 0;
-        return 1;
-    }
-    return 0;
+    size_t n = ledger_size_of(p);
+    if(n == (size_t)-1) return 0;
+    const unsigned char *b = p;
+    for(size_t k = 0; k < n; k++) if(b[k]) return 0;
+    return 1;
 }
 
 void cmd_life(char **a, int na) {
